@@ -62,7 +62,8 @@ Chunk *pawn_add_vsemi_after(Chunk *pc)
 {
    LOG_FUNC_ENTRY();
 
-   if (pc->IsSemicolon())
+   if (  pc->IsSemicolon()
+      || pc->Is(CT_IGNORED))      // a line of a disabled region is copied through as it is
    {
       return(pc);
    }
